@@ -332,8 +332,49 @@ func (c *Ctx) c07Read(b BK) {
 			}
 		} else if isExpired {
 			nExp++
-			if ent := errv.Fields["entry"]; ent == nil || !isEntry(ent) {
-				r.Bad("R07.2", op, "expired-entry", c.Pos(p.RetPos), "the expiry error must carry the looked-up entry (its Value/ExpiredAt are that entry's V/E)", shortTrace(p))
+			// the error carries the looked-up entry itself, or a snapshot {value: entry.V, instant: entry.E (possibly as time)}
+			carries := false
+			if ent := errv.Fields["entry"]; ent != nil && isEntry(ent) {
+				carries = true
+			} else if len(errv.Fields) >= 2 {
+				hasV, hasE := false, false
+				for _, fv := range errv.Fields {
+					var fromField func(v *pw.Val, d int) string
+					fromField = func(v *pw.Val, d int) string {
+						if v == nil || d > 5 {
+							return ""
+						}
+						if v.Kind == pw.KField && v.Field != nil && isEntry(v.Src) {
+							return v.Field.Name()
+						}
+						if v.Kind == pw.KConv {
+							return fromField(v.Src, d+1)
+						}
+						if v.Kind == pw.KCall && v.Ev != nil {
+							for _, a := range v.Ev.Args {
+								if f := fromField(a, d+1); f != "" {
+									return f
+								}
+							}
+						}
+						if v.Kind == pw.KArith {
+							if f := fromField(v.Src, d+1); f != "" {
+								return f
+							}
+						}
+						return ""
+					}
+					switch fromField(fv, 0) {
+					case "V":
+						hasV = true
+					case "E":
+						hasE = true
+					}
+				}
+				carries = hasV && hasE
+			}
+			if !carries {
+				r.Bad("R07.2", op, "expired-entry", c.Pos(p.RetPos), "the expiry error must carry the looked-up entry's value and expiry instant (the entry itself or a snapshot of its V and E)", shortTrace(p))
 			}
 		} else {
 			r.Bad("R07.2", op, "present-unclassified", c.Pos(p.RetPos), "present entry yields neither its value nor the expiry error: "+errv.String(), shortTrace(p))
@@ -369,6 +410,20 @@ func (c *Ctx) c07ExpiredAccessors(b BK) {
 	}
 	if b.Name == "syncMap" {
 		return
+	}
+	if obj := c.Pkg.Types.Scope().Lookup(et); obj != nil {
+		if st, ok := obj.Type().Underlying().(*types.Struct); ok {
+			hasEntry := false
+			for i := 0; i < st.NumFields(); i++ {
+				if st.Field(i).Name() == "entry" {
+					hasEntry = true
+				}
+			}
+			if !hasEntry {
+				r.OK("R07.2", et, "snapshot representation (fields checked at the construction site)")
+				return
+			}
+		}
 	}
 	for _, m := range []struct{ meth, field string }{{"Value", "V"}, {"ExpiredAt", "E"}} {
 		name := et + "." + m.meth
@@ -523,6 +578,7 @@ type iterGroup struct {
 	begin    *pw.Event
 	overData bool // range over a storage map or a sync.Map.Range callback
 	inner    bool // no nested loop iteration inside
+	open     bool // the iteration was left by a return of the entry function (never closed)
 	events   []*pw.Event
 }
 
@@ -564,6 +620,9 @@ func iterations(p *pw.Path) []*iterGroup {
 		}
 	}
 	// iterations cut short by a return
+	for _, g := range stack {
+		g.open = true
+	}
 	out = append(out, stack...)
 	return out
 }
